@@ -79,7 +79,15 @@ def gen_events(rng, prog, n):
             cands = [x for x, d in cur["defs"].items() if d["kind"] != "var" and x[0] == "m"]
             x = rng.choice(cands)
             d = cur["defs"][x]
-            if d["kind"] == "memento":
+            if d.get("foreign"):
+                # back to the identical memento function it was before
+                cur["defs"][x] = d = copy.deepcopy(d["was"])
+            elif d["kind"] == "memento" and rng.random() < 0.4:
+                # a plain function of another package (memento keeps no rule for it)
+                cur["defs"][x] = d = dict(kind="plain", where=d["where"], foreign=True, wrapped=False, const=0, setc=None, tup=None, dflt=None,
+                                          kwd=None, lam=None, nest=None, refs=[], was=copy.deepcopy(d))
+                clones = {c: b for c, b in clones.items() if b != x}
+            elif d["kind"] == "memento":
                 d["kind"] = "plain"
                 d["wrapped"] = False
                 d.pop("explicit", None)
@@ -112,6 +120,26 @@ def gen_events(rng, prog, n):
         else:
             continue
         out.append((desc, acts, copy.deepcopy(cur), dict(clones)))
+    return out
+
+
+def directed_scenarios():
+    """a memento function is replaced by a plain function of another package (no rule is kept for it), its caller is asked
+    for its version, and the identical memento function is put back"""
+    f = c01._fn
+    out = []
+    for caller_refs in ([["m1", "bare"]], [["h1", "bare"]]):
+        p0 = dict(defs={"m1": f("memento", []), "h1": f("plain", [["m1", "bare"]]), "m2": f("memento", caller_refs), "m3": f("memento", [["m2", "bare"]])},
+                  order=["m1", "h1", "m2", "m3"])
+        for d in p0["defs"].values():
+            d["nest"] = None
+        p1 = copy.deepcopy(p0)
+        p1["defs"]["m1"] = dict(kind="plain", where="mod", foreign=True, wrapped=False, const=0, setc=None, tup=None, dflt=None, kwd=None, lam=None,
+                                nest=None, refs=[], was=copy.deepcopy(p0["defs"]["m1"]))
+        p2 = copy.deepcopy(p0)
+        evs = [[["switch-kind", "m1", "foreign"], c01.event_actions(p0, p1), p1, {}],
+               [["switch-kind", "m1", "memento"], c01.event_actions(p1, p2), p2, {}]]
+        out.append(dict(note="memento -> foreign plain function -> identical memento", program=p0, events=evs))
     return out
 
 
@@ -268,6 +296,8 @@ class CacheModel:
 def model_replay(prog, marks, events, out):
     """the same events through the Lean model of the version cache: the equality pattern of the versions the real
     objects report (over the whole scenario, per function) must be the model's"""
+    if any(d.get("foreign") for (_, _, after, _) in marks for d in after["defs"].values()):
+        return [], 0           # functions of other packages are outside the model's program class (no rule is made for them)
     cm = CacheModel()
     pairs = []
     try:
@@ -343,6 +373,7 @@ def main(chk, replay=None):
         return item["program"], evs, fails, mism, npairs
 
     corpus = json.load(open(os.path.join(os.path.dirname(os.path.abspath(__file__)), "corpus_c13.json")))
+    corpus += directed_scenarios()
     seeds = [rng.randrange(1 << 30) for _ in range(nprog)]
     with concurrent.futures.ThreadPoolExecutor(max_workers=8) as ex:
         for prog, evs, fails, mism, npairs in list(ex.map(work_corpus, corpus)) + list(ex.map(work, seeds)):
